@@ -25,8 +25,8 @@ import (
 type rootKind int
 
 const (
-	rFresh rootKind = iota // allocation local to the function, reached with zero loads
-	rFreshHeap             // loaded out of a locally allocated object
+	rFresh     rootKind = iota // allocation local to the function, reached with zero loads
+	rFreshHeap                 // loaded out of a locally allocated object
 	rParam
 	rFreeVar
 	rGlobal
@@ -44,9 +44,9 @@ type Effect struct {
 	F     string // field name; "*" whole object; "[]" elements of a non-field container
 	Elem  bool   // the elements of the slice/map held in the field are written, not the field
 	Root  rootKind
-	RootI int    // parameter index for rParam
-	What  string // store | mapupdate | append | copy | delete | clear | sort | call:<fn>
-	Ty    string // type of the written container / object when T == ""
+	RootI int       // parameter index for rParam
+	What  string    // store | mapupdate | append | copy | delete | clear | sort | call:<fn>
+	Ty    string    // type of the written container / object when T == ""
 	Val   ssa.Value // value stored (for store effects), may be nil
 }
 
